@@ -24,7 +24,7 @@ func (c10) ID() string { return "C10" }
 func (c10) Meta(tier string) engine.Meta {
 	return engine.Meta{
 		Level: "model_checking",
-		Rule: "structural half: all terms of depth <= 2 (thorough: depth 3 with one nested depth-2 operand) over 3 atoms (a variable, a number, a boolean literal) and 17 constructors — infix, prefix, ?:, method call with and without arguments, parentheses, plain call, subscript, member, list / map / object literals — i.e. every node kind nested in every operand position; each is rendered, parsed by the real parser and desugared: the result must equal the independently computed core form (op(x,y), op(x), if(c,a,b), f(o,args), e; receiver then arguments in source order), contain no sugar node, be a fixpoint of Desugar, carry the operator's column, and the input tree (deep snapshot incl. spans) must be unchanged. Semantic half: every well-typed program of the small-alphabet (one nested operand) and effects corpora is evaluated from its sugared source and from the explicit core tree built directly with the ast constructors and fed to Expr.CompileExpr: same outcome class, same value, same host-call trace on two back ends; plus paired source texts (c?a:b / if(c,a,b), o.f(x) / f(o,x), x + y / x. +(y), (e) / e), each also on an engine built with UseBuiltIn(false) and the same operators / functions registered by hand, and on engines with an additional identity translator registered before / after first use; callee family: sugar inside computed callees and their arguments (6 x 6 sugar forms x 8 callee shapes). non-trivial = terms containing at least one sugar node",
+		Rule: "structural half: all terms of depth <= 2 (thorough: depth 3 with one nested depth-2 operand) over 3 atoms (a variable, a number, a boolean literal) and 17 constructors — infix, prefix, ?:, method call with and without arguments, parentheses, plain call, subscript, member, list / map / object literals — i.e. every node kind nested in every operand position; each is rendered, parsed by the real parser and desugared: the result must equal the independently computed core form (op(x,y), op(x), if(c,a,b), f(o,args), e; receiver then arguments in source order), contain no sugar node, be a fixpoint of Desugar, carry the operator's column, and the input tree (deep snapshot incl. spans) must be unchanged. Semantic half: every well-typed program of the small-alphabet (one nested operand) and effects corpora is evaluated from its sugared source and from the explicit core tree built directly with the ast constructors and fed to Expr.CompileExpr: same outcome class, same value, same host-call trace on two back ends; plus paired source texts (c?a:b / if(c,a,b), o.f(x) / f(o,x), x + y / x. +(y), (e) / e, and sugar written without parentheses inside list / map / object literals, call arguments and subscripts), each also on an engine built with UseBuiltIn(false) and the same operators / functions registered by hand, and on engines with an additional identity translator registered before / after first use; callee family: sugar inside computed callees and their arguments (6 x 6 sugar forms x 8 callee shapes). non-trivial = terms containing at least one sugar node",
 		Bound: "depth 2 (structural); depth 2 with one nested operand (semantic)",
 		Assumptions: []string{"the expected core form is computed on the harness's own term type (mc/props/c10.go), never by the code under test"},
 	}
@@ -228,7 +228,13 @@ func (c10) Generate(tier string, yield func(*engine.Case) bool) {
 	for _, p := range [][2]string{
 		{"b ? n : 1", "if(b, n, 1)"}, {"s.len()", "len(s)"}, {"l.get(0, 9)", "get(l, 0, 9)"}, {"n + 1", "n. +(1)"}, {"(n)", "n"},
 		{"((n + 1)) * 2", "n. +(1). *(2)"}, {"-n", "n. -()"}, {"l.len().string()", "string(len(l))"}, {"b ? b ? 1 : 2 : 3", "if(b, if(b, 1, 2), 3)"},
-		{"s.len() + l.len()", "len(s). +(len(l))"}, {"!b || b", "b. !(). ||(b)"}, {"m.get(\"a\", 0) == 1", "get(m, \"a\", 0). ==(1)"},
+		{"s.len() + l.len()", "len(s). +(len(l))"},
+		// sugar written WITHOUT parentheses inside every bracketing construct
+		{"[b ? n : 1]", "[if(b, n, 1)]"}, {"[b ? 1 : 2, 3]", "[if(b, 1, 2), 3]"}, {"[3, b ? 1 : 2]", "[3, if(b, 1, 2)]"},
+		{`[b ? "a" : "c" : 1]["a"]`, `[if(b, "a", "c"): 1]["a"]`}, {`["a" : b ? 1 : 2]["a"]`, `["a": if(b, 1, 2)]["a"]`},
+		{"max(b ? 1 : 2, 3)", "max(if(b, 1, 2), 3)"}, {"{a: b ? 1 : 2}.a", "{a: if(b, 1, 2)}.a"}, {"l[b ? 0 : 1]", "l[if(b, 0, 1)]"},
+		{"[n + 1 * 2]", "[n. +(1. *(2))]"}, {"-n + 1", "n. -(). +(1)"}, {"!b ? 1 : 2", "if(b. !(), 1, 2)"}, {"[-n, !b ? 1 : 2]", "[n. -(), if(b. !(), 1, 2)]"},
+		{"[s.len(), n]", "[len(s), n]"}, {"[l.len() > 1 ? l[1] : 0]", "[if(len(l). >(1), l[1], 0)]"}, {"!b || b", "b. !(). ||(b)"}, {"m.get(\"a\", 0) == 1", "get(m, \"a\", 0). ==(1)"},
 	} {
 		if ok && !yield(&engine.Case{Family: "paired-sources", Key: p[0] + " ≡ " + p[1], Src: p[0], Args: []string{"pair", p[1]}}) {
 			ok = false
